@@ -1,13 +1,17 @@
 mod alloc;
 mod checks_a;
+mod checks_b;
 mod core;
 mod driver;
 mod inst;
+mod inst_poplar;
 mod model;
 mod rng;
+mod trace_vdaf;
 mod util;
 mod wire;
 mod world_a;
+mod world_b;
 
 use crate::core::{Check, Tier};
 
@@ -17,6 +21,7 @@ static GLOBAL: alloc::Counting = alloc::Counting;
 fn registry() -> Vec<Box<dyn Check>> {
     let mut v: Vec<Box<dyn Check>> = Vec::new();
     v.extend(checks_a::checks());
+    v.extend(checks_b::checks());
     v
 }
 
